@@ -69,6 +69,19 @@ def chk_complex(dim):
                             return bad("%s.%s(a*x) != a*%s(x) for a=%g (a complex field of small / large overall magnitude)" % (label, nm, nm, amp), numpy.asarray(got), amp * base)
                     if not abs(G(F(amp * x, delta), df) - amp * x).max() <= 1e-9 * amp * abs(x).max():
                         return bad("%s.%s(%s(a*x)) != a*x for a=%g" % (label, g, f, amp))
+                # real-dtype input (float64 / float32 / int arrays are legal inputs of the complex transforms)
+                xr = rng.normal(size=shape)
+                for xin, tolr in ((xr, 1e-9), (xr.astype("float32"), 2e-5), (numpy.round(xr * 10).astype(int), 1e-9)):
+                    wr = spec_ft(numpy.asarray(xin, dtype=float), delta, dim)
+                    got = F(xin, delta)
+                    if numpy.shape(got) != numpy.shape(wr) or not abs(got - wr).max() <= tolr * max(1, abs(wr).max()):
+                        return bad("%s.%s of a real (%s) array is not the centred transform of the statement" % (label, f, numpy.asarray(xin).dtype), numpy.asarray(got), wr)
+                    if not abs(G(got, df) - xin).max() <= tolr * max(1, abs(numpy.asarray(xin, dtype=float)).max()):
+                        return bad("%s.%s(%s(x)) != x for a real (%s) array x" % (label, g, f, numpy.asarray(xin).dtype))
+                    wri = spec_ft(numpy.asarray(xin, dtype=float), delta, dim, inverse=True)
+                    goti = G(xin, delta)
+                    if numpy.shape(goti) != numpy.shape(wri) or not abs(goti - wri).max() <= tolr * max(1, abs(wri).max()):
+                        return bad("%s.%s of a real (%s) array is not the centred inverse transform of the statement" % (label, g, numpy.asarray(xin).dtype), numpy.asarray(goti), wri)
                 # batch: per item
                 if x.ndim > dim:
                     it0 = x.reshape((-1,) + x.shape[-dim:])[0]
